@@ -118,6 +118,7 @@ typedef struct {
     uint64_t trace_sites[16];
     uint64_t leftover_in, leftover_out;    /* runs ending with unconsumed pending data */
     uint64_t stalls;                       /* both directions suspended at end */
+    uint64_t null_tx_callbacks;            /* callbacks invoked with a NULL transaction (observation) */
     uint64_t viol[20];                     /* violations by property number */
 } hx_stats;
 void hx_stats_add(hx_stats *dst, const hx_stats *src);
